@@ -782,7 +782,7 @@ def distances(cx):
                         if not (1 - F - 1e-7 <= T <= math.sqrt(max(0.0, 1 - F ** 2)) + 1e-7):
                             return f"reference violates Fuchs-van de Graaf: T={T}, F={F}"
                         # sqrt(1 - |<a|b>|^2) loses half the digits near T = 0: absolute tolerance 1e-7 there
-                        tol_ = 2e-8
+                        tol_ = 1e-7  # (was 2e-8: sqrt of a rounding error of 2 ulp is already 2.1e-8 -- seen once the ket/ket path stopped raising for overlap 1)
                         e = first(scalar_close(qu.trace_distance(aq(), bq(), isherm=herm), T, "trace_distance", tol=tol_, rel=False),
                                   scalar_close(qu.trace_distance(bq(), aq(), isherm=herm), T, "trace_distance(b, a)", tol=tol_, rel=False))
                         if e:
